@@ -23,10 +23,22 @@ from krrood.ontomatic.property_descriptor.mixins import HasInverseProperty, Tran
 from krrood.ontomatic.property_descriptor.property_descriptor import PropertyDescriptor
 
 SALT = [0]
+# Fault seam: while FAULT[0] is a number, the k-th next call of a user object's __hash__ raises InjectedFault
+# (user code failing in the middle of whatever krrood operation called it); armed and disarmed by the machines.
+FAULT = [None]
+
+
+class InjectedFault(RuntimeError):
+    pass
 
 
 class _Ident:
     def __hash__(self):
+        if FAULT[0] is not None:
+            FAULT[0] -= 1
+            if FAULT[0] < 0:
+                FAULT[0] = None
+                raise InjectedFault("user __hash__ failed")
         return hash((self.serial, SALT[0]))
 
     def __eq__(self, other):
